@@ -12,8 +12,8 @@ from harness.impl import H_ann, H_opt, H_PLAIN, H_tuple, SHARED_DT, V_NONE, V_OT
 
 SIZES = [0, 1, 2, 3, 5, 7]
 SPELLINGS = ["Optional", "T|None", "None|T", "Union[None,T]", "Union[T,None]"]
-NAME_POOL = ["a", "b", "c", "d", "n_k"]
-GROUP_POOL = ["g", "bt"]
+NAME_POOL = ["a", "b", "c", "d", "n_k", "max_len"]
+GROUP_POOL = ["g", "bt", "a"]   # "a" is also a dimension name: sizes and group lengths live in different tables
 CLASSES = {
     "TensorTypeBase": SHARED_DT,
     "FloatTensor": ["f16", "f32", "f64"],
